@@ -19,7 +19,7 @@ REQUIRED_COUNTERS = ["vector_evals", "perfect_checks", "never_better_checks", "d
 ANCHOR_FUNCS = ["ObsFcstBased.compute_from_obs_fcst", "ObsFcstBased.compute_single", "FromField.compute_single"]
 
 NAN = float("nan")
-AGGS = refmetrics.AGG_NAMES + ["0", "0.25", "0.5", "0.9", "1"]
+AGGS = refmetrics.AGG_NAMES + ["0", "0.25", "0.5", "0.9", "1", "0.975", "0.025", "0.333", "0.995"]
 # verif class name (lower) -> reference name
 NAMES = {"mae": "mae", "bias": "bias", "rmse": "rmse", "stderror": "stderror", "corr": "corr", "rankcorr": "rankcorr",
          "kendallcorr": "kendallcorr", "nsec": "nsec", "nnsec": "nnsec", "kge": "kge", "cmae": "cmae", "rmsf": "rmsf",
